@@ -97,6 +97,7 @@ class Runner:
         self.consumers = {}
         self.consumer_tasks = []
         self.consumer_task_of = {}
+        self.late_consumers = []
 
     # ---- hooks on the implementation -----------------------------------------------------
     def on_send(self, tick, dest, data):
@@ -284,10 +285,18 @@ class Runner:
                 except Exception as e:
                     state["end"] = "raised:" + ",".join(c.__name__ for c in type(e).__mro__)
 
-            task = self.loop.create_task(consume())
-            task.add_done_callback(lambda f: f.cancelled() or f.exception())
-            self.consumer_tasks.append(task)
-            self.consumer_task_of[r] = task
+            def start(r=r, consume=consume):
+                task = self.loop.create_task(consume())
+                task.add_done_callback(lambda f: f.cancelled() or f.exception())
+                self.consumer_tasks.append(task)
+                self.consumer_task_of[r] = task
+
+            if self.script["consume"] == "late":
+                # "await request.response, do something else, then async for": the iteration starts only after the
+                # script's shutdown has returned
+                self.late_consumers.append(start)
+            else:
+                start()
 
     def do_K(self, ev):
         """["K", t, r]: the application cancels the task that iterates over the observation of request `r` (a worker
@@ -343,6 +352,9 @@ class Runner:
             msg.payload = b""
             msg.opt.observe = None
             msg.opt.no_response = None
+            # (the representation's validator changes with it: what the layer keeps for duplicates must not share
+            # the option set of the application's object either)
+            msg.opt.etag = ("v%s" % body).encode()
         else:
             msg = aiocoap.Message(code=aiocoap.Code(code), transport_tuning=T())
             self._shared_response = msg
@@ -517,6 +529,8 @@ class Runner:
                 await self.shutdown_task
                 for t in self.more_shutdown_tasks:
                     await t
+                for start in self.late_consumers:
+                    start()
                 if self.script.get("second_context"):
                     self.shutdown_info["second_context"] = await self.second_context_works()
             else:
